@@ -3,7 +3,8 @@
    numeric instance and every argument.  A change of a formula in the source changes the generated definition and
    breaks the corresponding theorem here. *)
 From Coq Require Import ZArith NArith List Bool String.
-From PV Require Import Num model.Geom model.Optimiser gen.GenFns.
+From PV Require Import Num model.Geom model.Optimiser model.Svg gen.GenFns.
+Import ListNotations.
 Local Open Scope num_scope.
 
 Theorem source_translated : gen_fns_problem = ""%string.
@@ -41,6 +42,16 @@ Section Source.
     intros b. unfold gen_cooling_factor, build. cbn [factor].
     destruct (b_kt_ratio NN b), (b_kt_finish NN b); reflexivity.
   Qed.
+
+  Theorem inner_steps_is_source : forall b, gen_inner_steps NN b = inner NN (build NN fpow b).
+  Proof. reflexivity. Qed.
+
+  Theorem loops_is_source : forall c, gen_loops NN c = loops_of (steps NN c) (inner NN c).
+  Proof. reflexivity. Qed.
+
+  (* the convergence test of a loop: the improvement is below the threshold *)
+  Theorem converged_is_source : forall cur start eps, gen_converged NN cur start eps = ((cur - start) <? eps).
+  Proof. reflexivity. Qed.
 
   (* the step-ratio update at the end of a loop that does not converge *)
   Theorem ratio_update_is_source : forall (r : T) (inner_ rej : N),
@@ -110,3 +121,16 @@ Section Source.
     gen_lj_final NN st (lj_sum NN powi st) = lj_score NN powi st.
   Proof. reflexivity. Qed.
 End Source.
+
+(* ---- src/to_svg.rs: the matrix(a b c d e f) of a placement lists the entries in the model's order *)
+Definition tf_entry (NN : Num) (t : tf NN) (rc : nat * nat) : carrier NN :=
+  match rc with
+  | (0, 0) => a00 NN t | (0, 1) => a01 NN t | (0, 2) => a02 NN t
+  | (1, 0) => a10 NN t | (1, 1) => a11 NN t | (1, 2) => a12 NN t
+  | (2, 0) => a20 NN t | (2, 1) => a21 NN t | _ => a22 NN t
+  end%nat.
+
+Theorem svg_entries_are_source : forall NN (t : tf NN),
+  emit NN t = map (tf_entry NN t) gen_svg_entries
+  /\ gen_svg_format = "matrix({0} {1} {2} {3} {4} {5})"%string.
+Proof. intros NN t. split; reflexivity. Qed.
